@@ -232,6 +232,32 @@ theorem xoshiro_distinct_states_distinct_streams (s t : S) (hs : s ≠ zeroS) (h
   have hlt : d % Nper < Nper := Nat.mod_lt _ Nper_pos
   exact hpos (Nat.eq_zero_of_dvd_of_lt hdiv hlt)
 
+/-- **The 32-bit words and the unit floats of Xoshiro256 (`xoshiro256+`: the top `64 - k` bits of
+`s0 + s3`; `k = 32` for `next_u32`, `41` for `next_f32`, `12` for `next_f64`) have the full period
+`2^256 - 1` as well**: every value `…0001` of the shifted sum has exactly `2^(192+k)` preimages. -/
+theorem xoshiro_plus_output_full_period (k : ℕ) (hk : k < 64) (s : S) (hs : s ≠ zeroS) (m : ℕ)
+    (hm : ∀ n, XoOut.outPlusShift k (advance^[n + m] s) = XoOut.outPlusShift k (advance^[n] s)) : (2 ^ 256 - 1) ∣ m := by
+  have hN : (2 : ℕ) ^ 256 - 1 = Nper := by norm_num [Nper]
+  rw [hN]
+  refine XoOut.output_period advance zeroS xoshiro_zero_fixed Nper ?_ xoshiro_full_period_Nper xoshiro_never_zero ?_
+    (XoOut.outPlusShift k) 1#64 ?_ (192 + k) (fun {_} => XoOut.card_plusFibre k hk) Nper_odd_primes Nper_dvd_of_primes s hs m hm
+  · rw [XoOut.card_S]; norm_num [Nper]
+  · intro x; rw [← iter_eq_iterate]; exact period_of_certN certN x
+  · show (0#64 + 0#64) >>> k ≠ 1#64
+    intro h
+    have := congrArg BitVec.toNat h
+    simp at this
+
+/-- the model's `next_u32` / `next_f32` / `next_f64` outputs are injective functions of these shifted sums -/
+theorem xoshiro_u32_is_shift (s : S) : ((Xoshiro.gen.u32 s).1).setWidth 64 = XoOut.outPlusShift 32 s := by
+  show (((s.s0 + s.s3) >>> 32).setWidth 32).setWidth 64 = (s.s0 + s.s3) >>> 32
+  apply BitVec.eq_of_toNat_eq
+  simp only [BitVec.toNat_setWidth, BitVec.toNat_ushiftRight, Nat.shiftRight_eq_div_pow]
+  have h1 : (s.s0 + s.s3).toNat / 2 ^ 32 < 2 ^ 32 := by
+    have := (s.s0 + s.s3).isLt
+    exact Nat.div_lt_of_lt_mul (by norm_num at this ⊢; omega)
+  rw [Nat.mod_eq_of_lt h1, Nat.mod_eq_of_lt (lt_trans h1 (by norm_num))]
+
 /-! ### SplitMix64 / Wyrand: jump = 2^40 steps, period exactly 2^64 -/
 
 /-- a Weyl sequence `x ↦ x + c` with odd `c` on 64 bits -/
